@@ -3744,3 +3744,189 @@ func runOffsetAppliesToItsString(rr *RuleRun) {
 		})
 	})
 }
+
+// ---------------------------------------------------------------------------
+// C12.value-read-under-its-flag
+
+func init() {
+	register(&Rule{
+		ID: "C12.value-read-under-its-flag", Prop: "C12", Also: []string{"C11"}, Floor: 2, Controls: 0,
+		Doc: "in the standard functions, a variable that is filled in only inside the branch that also raises a validity flag (startIndex with startKnown = true, set only when the argument is known) is compared with anything outside that branch only where the flag was tested true on every path: otherwise the zero placeholder of an unknown argument is compared as if it were the argument, and an unknown argument makes a call fail that succeeds for every known value",
+		Run: runValueReadUnderItsFlag,
+	})
+}
+
+func runValueReadUnderItsFlag(rr *RuleRun) {
+	c := rr.Ctx
+	eachFuncBody(c, []string{"cty/function/stdlib"}, func(pkg string, fd *ast.FuncDecl, body *ast.BlockStmt) {
+		info := c.Info(pkg)
+		written := func(root ast.Node) map[types.Object]int {
+			out := map[types.Object]int{}
+			inspectNoLit(root, func(n ast.Node) bool {
+				switch x := n.(type) {
+				case *ast.AssignStmt:
+					for _, l := range x.Lhs {
+						if o := objOf(info, l); o != nil {
+							out[o]++
+						}
+					}
+				case *ast.UnaryExpr:
+					if x.Op == token.AND {
+						if o := objOf(info, x.X); o != nil {
+							out[o]++
+						}
+					}
+				case *ast.IncDecStmt:
+					if o := objOf(info, x.X); o != nil {
+						out[o]++
+					}
+				}
+				return true
+			})
+			return out
+		}
+		all := written(body)
+		type pair struct {
+			x, f  types.Object
+			block *ast.BlockStmt
+		}
+		var pairs []pair
+		inspectNoLit(body, func(n ast.Node) bool {
+			is, ok := n.(*ast.IfStmt)
+			if !ok {
+				return true
+			}
+			// flags raised directly in this branch
+			var flags []types.Object
+			for _, st := range is.Body.List {
+				if as, ok := st.(*ast.AssignStmt); ok && as.Tok == token.ASSIGN && len(as.Lhs) == 1 && len(as.Rhs) == 1 {
+					if tv, ok := info.Types[as.Rhs[0]]; ok && tv.Value != nil && tv.Value.String() == "true" {
+						if o, ok := objOf(info, as.Lhs[0]).(*types.Var); ok && all[o] == 1 {
+							flags = append(flags, o)
+						}
+					}
+				}
+			}
+			if len(flags) != 1 {
+				return true
+			}
+			in := written(is.Body)
+			for o, n := range in {
+				v, ok := o.(*types.Var)
+				if !ok || v == flags[0] || all[o] != n {
+					continue // also written elsewhere
+				}
+				if b, ok := v.Type().Underlying().(*types.Basic); !ok || b.Info()&types.IsNumeric == 0 {
+					continue
+				}
+				if v.Pos() >= is.Pos() && v.Pos() <= is.End() {
+					continue // declared inside
+				}
+				pairs = append(pairs, pair{v, flags[0], is.Body})
+			}
+			return true
+		})
+		if len(pairs) == 0 {
+			return
+		}
+		cf := c.CondFacts(body, info, nil)
+		for _, p := range pairs {
+			p := p
+			key := fmt.Sprintf("%s.%s/%s under %s", pkg, declName(fd), p.x.Name(), p.f.Name())
+			bad := false
+			reads := 0
+			inspectNoLit(body, func(n ast.Node) bool {
+				be, ok := n.(*ast.BinaryExpr)
+				if !ok || bad || (be.Pos() >= p.block.Pos() && be.End() <= p.block.End()) {
+					return true
+				}
+				switch be.Op {
+				case token.EQL, token.NEQ, token.LSS, token.GTR, token.LEQ, token.GEQ:
+				default:
+					return true
+				}
+				uses := false
+				for _, side := range []ast.Expr{be.X, be.Y} {
+					ast.Inspect(side, func(m ast.Node) bool {
+						if id, ok := m.(*ast.Ident); ok && info.Uses[id] == p.x {
+							uses = true
+						}
+						return true
+					})
+				}
+				if !uses {
+					return true
+				}
+				reads++
+				flagTrue := cf.HoldsAt(be, func(cond ast.Expr, truth bool) bool {
+					return truth && objOf(info, cond) == p.f
+				})
+				if !flagTrue {
+					bad = true
+					rr.Violation(key, be.Pos(), fmt.Sprintf("%s is filled in only in the branch that sets %s = true, but it is compared here (%s) on a path where %s was not tested: for an unknown argument the comparison sees the zero placeholder, so weakening an argument to unknown can turn a successful call into an error", p.x.Name(), p.f.Name(), trunc(exprStr(be), 40), p.f.Name()))
+				}
+				return true
+			})
+			if !bad {
+				rr.OK(key, p.block.Pos(), fmt.Sprintf("%d comparison(s) outside the filling branch, all under %s", reads, p.f.Name()))
+			}
+		}
+	})
+}
+
+// ---------------------------------------------------------------------------
+// C09.composed-conversion-targets-result
+
+func init() {
+	register(&Rule{
+		ID: "C09.composed-conversion-targets-result", Prop: "C09", Also: []string{"C08"}, Floor: 0, Controls: 1,
+		Doc: "in a unification helper (a function returning a type together with conversions) a conversion closure that builds a value directly from a type variable of the enclosing function (NullVal / UnknownVal / an empty-collection constructor) uses the variable that the helper returns as the unified type, not an intermediate type of a two-stage conversion: every returned conversion must yield a value of the unified type",
+		Run: runComposedConversionTargetsResult,
+	})
+}
+
+func runComposedConversionTargetsResult(rr *RuleRun) {
+	c := rr.Ctx
+	pkg := "cty/convert"
+	info := c.Info(pkg)
+	for _, fd := range c.SortedDecls(pkg) {
+		fn, _ := info.Defs[fd.Name].(*types.Func)
+		if fn == nil || !isUnifyFamily(fn) {
+			continue
+		}
+		// type variables returned as the unified type (first result of a return that also returns conversions)
+		resultTys := map[types.Object]bool{}
+		inspectNoLit(fd.Body, func(n ast.Node) bool {
+			if r, ok := n.(*ast.ReturnStmt); ok && len(r.Results) == 2 && !isNilIdent(info, r.Results[1]) {
+				if o := objOf(info, r.Results[0]); o != nil {
+					resultTys[o] = true
+				}
+			}
+			return true
+		})
+		ast.Inspect(fd.Body, func(n ast.Node) bool {
+			fl, ok := n.(*ast.FuncLit)
+			if !ok {
+				return true
+			}
+			ast.Inspect(fl.Body, func(m ast.Node) bool {
+				call, ok := m.(*ast.CallExpr)
+				if !ok || !isCall(info, call, "cty.NullVal", "cty.UnknownVal", "cty.ListValEmpty", "cty.SetValEmpty", "cty.MapValEmpty") || len(call.Args) != 1 {
+					return true
+				}
+				o, _ := objOf(info, call.Args[0]).(*types.Var)
+				if o == nil || !isCtyType(o.Type()) || (o.Pos() >= fl.Pos() && o.Pos() <= fl.End()) {
+					return true
+				}
+				key := fmt.Sprintf("%s.%s/closure/%s", pkg, declName(fd), exprStr(call))
+				if resultTys[o] {
+					rr.OK(key, call.Pos(), "the value is built from the type the helper returns as the unified type")
+				} else {
+					rr.Violation(key, call.Pos(), fmt.Sprintf("the conversion closure builds a value of type %s, which is not the type this helper returns as the unified type: the returned conversion then yields a value that is not of the unified type", o.Name()))
+				}
+				return true
+			})
+			return false
+		})
+	}
+}
